@@ -19,7 +19,8 @@ PROP = 'C20'
 URL = 'http://mock.invalid/data/file.bin'
 GOOD = BAD = OTHER = MD5_GOOD = None
 MD5_WRONG = hashlib.md5(b'something else entirely').hexdigest()
-SIZES = {'small': 2700, 'large': 2 ** 20 + 4096}    # large: more than one read block of the hasher
+SIZES = {'small': 2700, 'large': 2 ** 20 + 4096,    # large: more than one read block of the hasher
+         'empty': 0}                                  # the published file is empty (and so is a valid copy)
 
 
 def set_bodies(size='small'):
@@ -31,6 +32,8 @@ def set_bodies(size='small'):
     # the corrupted body differs from the good one only near its end
     BAD = GOOD[:-7] + bytes(bytearray((b + 1) % 256 for b in GOOD[-7:]))
     OTHER = GOOD[:n - 1200] if n > 3000 else bytes(bytearray((i * 13 + 1) % 239 for i in range(1500)))
+    if n == 0:
+        GOOD, BAD, OTHER = b'', b'not the empty file', b'some other prior content'
     MD5_GOOD = hashlib.md5(GOOD).hexdigest()
 
 
@@ -91,6 +94,8 @@ def run_download(prior, sum_mode, choices, data_script=None):
 
     def head_cb(request):
         log['head'] += 1
+        if len(GOOD) > 10000:
+            return (404, {}, b'HEAD is not served')     # large-body sweep: the size query fails
         return (200, {'content-length': str(len(GOOD))}, b'')
 
     import io
@@ -327,8 +332,9 @@ def explore(ctx):
     # direct exploration
     seen_const = {}
     for mode_set, name in ((SUMS, 'direct-constant'), (['per-request'], 'direct-per-request'),
-                           (SUMS, 'direct-constant-large')):
-        cases = [dict({'prior': p, 'sum': s}, **({'body': 'large'} if name.endswith('large') else {}))
+                           (SUMS, 'direct-constant-large'), (SUMS, 'direct-constant-empty')):
+        cases = [dict({'prior': p, 'sum': s}, **({'body': name.split('-')[-1]}
+                                                  if name.split('-')[-1] in SIZES else {}))
                  for p in PRIOR for s in mode_set]
         # run in-process (small) so that the explored scenario sets can be collected
         sub = core.Acc()
